@@ -26,16 +26,18 @@ uint8_t pr_draw(void) { vassume(ci < PR_NCH); return ch[step][ci++]; }
 uint8_t pr_below(uint8_t n) { uint8_t v = pr_draw(); return n ? (uint8_t)(v % n) : 0; }
 void pr_rec(uint32_t e) { vassume(ti[side][step] < PR_NTR); tr[side][step][ti[side][step]++] = (uint8_t)e; }
 uint32_t pr_side(void) { return (uint32_t)side; }
+#define PR_STR2(x) #x
+#define PR_STR(x) PR_STR2(x)
 #ifdef __CPROVER__
-#define PR_ASSERT(c, id) __CPROVER_assert((c), "vassert:" #id)
-#define PR_WITNESS(id) __CPROVER_assert(0, "vwitness:" #id)
+#define PR_ASSERT(c, id) __CPROVER_assert((c), "vassert:" PR_STR(id))
+#define PR_WITNESS(id) __CPROVER_assert(0, "vwitness:" PR_STR(id))
 #else
 #define PR_ASSERT(c, id) vassert((c), (id))
 #define PR_WITNESS(id) vwitness(id)
 #endif
 #ifndef PR_ID_LEN
-#define PR_ID_LEN 9900
-#define PR_ID_EVT 9901
+#define PR_ID_LEN 8900
+#define PR_ID_EVT 8901
 #endif
 int harness(void) {
   nondet_fill(&ch[0][0], sizeof ch);
